@@ -7910,6 +7910,9 @@ class Parser:
                 self._match_set((TokenType.NULL, TokenType.DEFAULT))
                 action = "SET " + self._prev.text.upper()
             else:
+                if not self._curr:
+                    self.raise_error(f"Expected an action after ON {kind.upper()}")
+                    break
                 self._advance()
                 action = self._prev.text.upper()
 
